@@ -34,12 +34,42 @@ contracts = {
     modifies=["limits_used"],
     loops={0: ["forall(k, Str, self.limits_used[k] == old(self.limits_used[k]) - (job_limits[k] if visited(0)[k] else 0))",
                "forall(o, Ref, implies(o != self, o.limits_used == old(o.limits_used)))"]}),
+ "Job.get_limits": dict(where=f"{SCHED}:Job.get_limits", params={"self": REF}, returns=LIM,
+    ensures=["result == limits_of(self)", "forall(k, Str, implies(k in result, result[k] >= 0))"]),
+ "Scheduler._check_jobs_pending_limits": dict(where=f"{SCHED}:Scheduler._check_jobs_pending_limits", params={"self": REF}),
+ "Scheduler._get_cache": dict(where=f"{SCHED}:Scheduler._get_cache", params={"self": REF, "job": REF}, returns=[OBJ, BOOL, OBJ]),
+ "Scheduler.reject_job": dict(where=f"{SCHED}:Scheduler.reject_job",
+    params={"self": REF, "job": REF, "error": OBJ, "error_traceback": OBJ, "job_tags": OBJ}, ghost={"held": HELD},
+    requires=[P_HANDLER, SAFE]),
+ "Scheduler.done_job": dict(where=f"{SCHED}:Scheduler.done_job",
+    params={"self": REF, "job": REF, "result": OBJ, "job_tags": OBJ}, ghost={"held": HELD},
+    requires=[P_HANDLER, SAFE]),
+ "Scheduler._done_job_main_thread": dict(where=f"{SCHED}:Scheduler._done_job_main_thread",
+    params={"self": REF, "job": REF, "result": OBJ, "job_tags": OBJ}, ghost={"held": HELD},
+    requires=[P_HANDLER, SAFE], ensures=["held[job] == None", SAFE],
+    before_call={("Scheduler._release_resources", 0): ["held[job] == Some(arg0)"]},
+    after_call={("Scheduler._release_resources", 0): "held[job] = None"}),
+ "Scheduler._reject_job_main_thread": dict(where=f"{SCHED}:Scheduler._reject_job_main_thread",
+    params={"self": REF, "job": Opt(REF), "error": OBJ, "error_traceback": OBJ, "job_tags": OBJ}, ghost={"held": HELD},
+    requires=["implies(job != None, " + P_HANDLER.replace("job", "val(job)") + ")", SAFE],
+    ensures=["implies(job != None, held[val(job)] == None)", SAFE],
+    before_call={("Scheduler._release_resources", 0): ["held[val(job)] == Some(arg0)"]},
+    after_call={("Scheduler._release_resources", 0): "held[val(job)] = None"}),
+ "Scheduler._exec_job_main_thread": dict(where=f"{SCHED}:Scheduler._exec_job_main_thread",
+    params={"self": REF, "job": REF, "eval_args": OBJ}, ghost={"held": HELD},
+    requires=["held[job] == None", SAFE], ensures=[SAFE],
+    before_call={("Scheduler._consume_resources", 0): ["held[job] == None", "arg0 == limits_of(job)"]},
+    after_call={("Scheduler._consume_resources", 0): "held[job] = Some(arg0)"},
+    at_call={"submit": ["not self._dryrun", "held[job] == Some(limits_of(job))"],
+             "submit_script": ["not self._dryrun", "held[job] == Some(limits_of(job))"]}),
 }
 
 MODULE = Module(
     fields={"limits_used": Arr(STR, INT), "limits": LIM, "_dryrun": BOOL, "was_cached": BOOL},
     classes={"self": "Scheduler", "job": "Job"},
     ufuns={"limits_of": ([REF], LIM)},
+    stable={"task": OBJ},
     contracts=contracts,
 )
-VERIFY = list(contracts)
+ASSUMED = ["Job.get_limits", "Scheduler._get_cache", "Scheduler._check_jobs_pending_limits"]
+VERIFY = [k for k in contracts if k not in ASSUMED]
